@@ -1,0 +1,50 @@
+//go:build verif
+
+package verifspec
+
+// Contracts for compiler/linkname and compiler/internal/symbol (property C10).
+
+//@ pure hasPrefix(s string, p string) bool = len(s) >= len(p) && forall(k, 0, len(p), s[k] == p[k])
+//@ extern strings.HasPrefix
+//@   param s prefix
+//@   ensures result == hasPrefix(s, prefix)
+//@ extern strings.Fields
+//@   param s
+//@   ensures forall(k, 0, len(result), len(result[k]) > 0)
+//@ extern strings.LastIndexByte
+//@   param s c
+//@   ensures -1 <= result && result < len(s)
+//@   ensures result >= 0 ==> s[result] == c && forall(k, result + 1, len(s), s[k] != c)
+//@   ensures result == -1 ==> forall(k, 0, len(s), s[k] != c)
+//@ extern strings.IndexByte
+//@   param s c
+//@   ensures -1 <= result && result < len(s)
+//@   ensures result >= 0 ==> s[result] == c && forall(k, 0, result, s[k] != c)
+//@   ensures result == -1 ==> forall(k, 0, len(s), s[k] != c)
+
+// readLinknameFromComment: only `//go:linkname ` comments are directives; the one-argument and the self-referencing
+// forms are ignored; any other arity is an error; for `//go:linkname local importpath.name` the reference is
+// (pkgPath, local) and the implementation is fields[2] split at the first '.' after its last '/' (so that dots inside
+// earlier path elements, e.g. example.org/lib.v2/impl.secret, stay in the package path).
+//@ func compiler/linkname.readLinknameFromComment
+//@ property C10
+//@   results link err
+//@   requires comment != nil
+//@   ensures !hasPrefix(comment.Text, "//go:linkname ") ==> link == nil && err == nil
+//@   ensures link != nil ==> err == nil && len(fields) == 3 && fields[1] != fields[2]
+//@   ensures err != nil ==> link == nil && len(fields) != 2 && len(fields) != 3
+//@   ensures link != nil ==> link.Reference.PkgPath == pkgPath && link.Reference.Name == fields[1]
+//@   ensures link != nil ==> 0 <= pathOffset && pathOffset <= len(fields[2]) && (pathOffset == 0 || fields[2][pathOffset - 1] == 47) && forall(k, pathOffset, len(fields[2]), fields[2][k] != 47)
+//@   ensures link != nil ==> (len(link.Implementation.PkgPath) == 0 && samestr(link.Implementation.Name, fields[2]) ==> forall(k, pathOffset, len(fields[2]), fields[2][k] != 46) || (pathOffset < len(fields[2]) && fields[2][pathOffset] == 46))
+//@   ensures link != nil ==> (!samestr(link.Implementation.Name, fields[2]) ==> len(link.Implementation.PkgPath) >= pathOffset && len(link.Implementation.PkgPath) + 1 + len(link.Implementation.Name) == len(fields[2]) && fields[2][len(link.Implementation.PkgPath)] == 46)
+//@   ensures link != nil ==> (!samestr(link.Implementation.Name, fields[2]) ==> forall(k, pathOffset, len(link.Implementation.PkgPath), fields[2][k] != 46))
+//@   ensures link != nil ==> (!samestr(link.Implementation.Name, fields[2]) ==> forall(k, 0, len(link.Implementation.PkgPath), link.Implementation.PkgPath[k] == fields[2][k]) && forall(k, 0, len(link.Implementation.Name), link.Implementation.Name[k] == fields[2][len(link.Implementation.PkgPath) + 1 + k]))
+
+// Name.IsMethod: a symbol name "Recv.method" or "(*Recv).method" splits at the first '.', parentheses stripped.
+//@ func compiler/internal/symbol.Name.IsMethod
+//@ property C10
+//@   ensures ok == exists(k, 0, len(n.Name), n.Name[k] == 46)
+//@   ensures ok ==> len(method) < len(n.Name) && forall(k, 0, len(method), method[k] == n.Name[len(n.Name) - len(method) + k]) && n.Name[len(n.Name) - len(method) - 1] == 46
+//@   ensures ok ==> forall(k, 0, len(n.Name) - len(method) - 1, n.Name[k] != 46)
+//@   ensures ok && !(len(n.Name) - len(method) - 1 > 2 && n.Name[0] == 40 && n.Name[len(n.Name) - len(method) - 2] == 41) ==> len(recv) == len(n.Name) - len(method) - 1 && forall(k, 0, len(recv), recv[k] == n.Name[k])
+//@   ensures ok && len(n.Name) - len(method) - 1 > 2 && n.Name[0] == 40 && n.Name[len(n.Name) - len(method) - 2] == 41 ==> len(recv) == len(n.Name) - len(method) - 3 && forall(k, 0, len(recv), recv[k] == n.Name[k + 1])
